@@ -322,6 +322,7 @@ type genv struct {
 	warnings              []string
 	dataKind              int // 0 valid, 1 wrong shape, 2 absent
 	null                  bool
+	pad                   int // bytes of padding in an unknown key / in the data (long bodies)
 }
 
 type gbeh struct {
@@ -330,6 +331,7 @@ type gbeh struct {
 	parsed *genv // nil: the body is not an envelope
 	body   []byte
 	class  string
+	long   bool // body larger than 1 KiB
 }
 
 func (b gbeh) sx() string {
@@ -378,6 +380,29 @@ func genEnv(r *emit.Rng, want string) *genv {
 			e.warnings = append(e.warnings, pick(r, warnPool))
 		}
 	}
+	// long bodies (1-64 KiB): long error message, many warnings, long unknown field / long data
+	if r.Chance(1, 7) {
+		size := []int{1100, 1500, 2048, 3000, 4096, 9000, 20000, 65536}[r.Intn(8)]
+		switch r.Intn(3) {
+		case 0:
+			if size > 5000 {
+				size = 1100 + r.Intn(3000)
+			}
+			e.errmsg = "long: " + strings.Repeat("parse error near token; ", size/24+1)
+			if e.status == "error" && e.etype == "" {
+				e.etype = "bad_data"
+			}
+		case 1:
+			if size > 5000 {
+				size = 1100 + r.Intn(3000)
+			}
+			for n := 0; n < size/40+1; n++ {
+				e.warnings = append(e.warnings, fmt.Sprintf("warning %d: series has mixed float and histogram", n))
+			}
+		default:
+			e.pad = size
+		}
+	}
 	switch {
 	case e.status == "error":
 		e.dataKind = []int{2, 2, 0, 1}[r.Intn(4)]
@@ -410,8 +435,15 @@ func renderEnv(r *emit.Rng, e *genv, tag int) []byte {
 		}
 		fields = append(fields, `"warnings":`+sp+"["+strings.Join(ws, ","+sp)+"]")
 	}
+	if e.pad > 0 && !(e.dataKind == 0 && (tag == 6 || tag == 7)) {
+		fields = append(fields, `"infos":["`+strings.Repeat("p", e.pad)+`"]`)
+	}
 	switch e.dataKind {
 	case 0:
+		if e.pad > 0 && (tag == 6 || tag == 7) {
+			fields = append(fields, `"data":`+sp+`["v0"`+strings.Repeat(`,"value"`, e.pad/8+1)+`]`)
+			break
+		}
 		fields = append(fields, `"data":`+sp+validData[tag])
 	case 1:
 		fields = append(fields, `"data":`+sp+[]string{`"zzz"`, `7`, `true`}[r.Intn(3)])
@@ -485,6 +517,9 @@ func genBeh(r *emit.Rng, tag int, realServer bool, code int, malformed bool) gbe
 		b.class = "success-baddata"
 	}
 	b.body = renderEnv(r, b.parsed, tag)
+	if len(b.body) > 1024 {
+		b.long = true
+	}
 	return b
 }
 
@@ -826,6 +861,9 @@ func addCase(w *emit.Writer, fails *[]failure, c gcall, prefix string, behs []gb
 	plain := true
 	for i, b := range behs {
 		tags = append(tags, "answer/"+b.class)
+		if b.long {
+			tags = append(tags, fmt.Sprintf("answer/long-body-%dxx", b.code/100))
+		}
 		if b.kind == behResp {
 			tags = append(tags, statusTag(b.code))
 			if !(b.code == 200 && b.class == "success") {
